@@ -52,13 +52,14 @@ Definition tok_of (f : str) : option tok :=
   | [40] => Some TLP | [41] => Some TRP | [91] => Some TLB | [93] => Some TRB
   | [63] => Some TQ | [58] => Some TColon | [44] => Some TComma | [46] => Some TDot
   | [59] => Some TSemi | [123] => Some TLC
+  | 116 :: d => Some (TType (nd d))        (* t *)
   | _ => None
   end.
 Definition tok_field (t : tok) : str :=
   match t with
   | TId n => 105 :: dec_of_N n | TNum n => 110 :: dec_of_N n | TOp o => 111 :: dec_of_N (opr_code o)
   | TLP => [40] | TRP => [41] | TLB => [91] | TRB => [93] | TQ => [63] | TColon => [58]
-  | TComma => [44] | TDot => [46] | TSemi => [59] | TLC => [123]
+  | TComma => [44] | TDot => [46] | TSemi => [59] | TLC => [123] | TType n => 116 :: dec_of_N n
   end.
 
 Fixpoint toks_of (i : N) (l : list str) : option (list ptok) :=
@@ -99,6 +100,7 @@ Fixpoint expr_of (fuel : nat) (l : list str) : option (expr * list str) :=
       | [120] :: r => two (EIdx 0) r
       | (109 :: d) :: r => one (fun a => EMem 0 0 a (nd d)) r
       | [114] :: r => one (EPar 0) r
+      | (116 :: d) :: r => one (ECast 0 (nd d)) r
       | _ => None
       end
   end.
